@@ -34,6 +34,12 @@ def _switches(fn):
         if cond is None:
             continue
         c = strip(cond, casts=True)
+        if c['k'] == 'DeclRefExpr' and c.get('d') is not None:
+            # a local copy `type = table_x[n].type` (single definition)
+            from rules.pagebase import _defs
+            ds = _defs(fn, c['d'])
+            if len(ds) == 1:
+                c = strip(ds[0], casts=True)
         if c['k'] == 'MemberExpr' and 'table_' in show(c):
             out.append((n, show(c)))
     return out
@@ -383,3 +389,218 @@ def table_index(prog, floor=100):
     if nloops < floor:
         raise AnalysisBroken('TABLE-INDEX: only %d table search loops' % nloops)
     return RuleResult('TABLE-INDEX', obs, floor, {'loops': nloops})
+
+
+def _ev(n, env):
+    """Concrete value of a condition atom under env ({('v', decl): int, ('col', name): int}); None = unknown."""
+    n = strip(n, casts=True)
+    v = const(n)
+    if v is not None:
+        return v
+    k = n['k']
+    if k == 'DeclRefExpr':
+        return env.get(('v', n.get('d')))
+    if k == 'MemberExpr':
+        b_ = strip(kids(n)[0], casts=True) if kids(n) else None
+        if b_ is not None and b_['k'] == 'ArraySubscriptExpr':
+            t_ = strip(kids(b_)[0], casts=True)
+            if t_['k'] == 'DeclRefExpr' and t_.get('n') == env.get('table'):
+                return env.get(('col', n.get('n')))
+        return None
+    if k == 'UnaryOperator' and n.get('op') == '!':
+        a = _ev(kids(n)[0], env)
+        return None if a is None else int(not a)
+    if k == 'BinaryOperator':
+        op = n.get('op')
+        a = _ev(kids(n)[0], env)
+        b = _ev(kids(n)[1], env)
+        if op == '&&':
+            if a == 0 or b == 0:
+                return 0
+            return None if a is None or b is None else 1
+        if op == '||':
+            if (a is not None and a != 0) or (b is not None and b != 0):
+                return 1
+            return None if a is None or b is None else 0
+        if a is None or b is None:
+            return None
+        try:
+            return {'==': lambda: int(a == b), '!=': lambda: int(a != b), '<': lambda: int(a < b), '>': lambda: int(a > b),
+                    '<=': lambda: int(a <= b), '>=': lambda: int(a >= b), '&': lambda: a & b, '|': lambda: a | b,
+                    '^': lambda: a ^ b, '+': lambda: a + b, '-': lambda: a - b, '>>': lambda: a >> b,
+                    '<<': lambda: a << b, '*': lambda: a * b}[op]()
+        except (KeyError, ValueError):
+            return None
+    return None
+
+
+def _edge_refuted(prog, fn, fa, mine, src, dst, table, typecol, typevals):
+    """Is the edge src->dst (leaving the arm) impossible?  Every path inside the arm from its entries to src is
+    enumerated; the tests on it are evaluated for every row of `table` whose type column selects this arm and every value
+    of the one small-range local they read.  Returns the argument text when no (path, row, value) survives, else None."""
+    from nk import tables
+    # paths: lists of (cond node, truth)
+    paths = []
+    ents = _entries(fn, mine)
+    stack = [(e, [], (e,)) for e in ents]
+    steps = 0
+    while stack:
+        b, cs, vis = stack.pop()
+        steps += 1
+        if steps > 5000 or len(paths) > 300:
+            return None
+        succ = fn.blocks[b]['s']
+        cn = fn.nodes.get(fn.blocks[b].get('cond')) if 'cond' in fn.blocks[b] else None
+        for i, s_ in enumerate(succ):
+            if s_ is None:
+                continue
+            c2 = cs
+            if cn is not None and len(succ) == 2:
+                own = strip(cn)
+                while own['k'] == 'BinaryOperator' and own.get('op') in ('&&', '||'):
+                    own = strip(kids(own)[1])
+                c2 = cs + [(own, i == 0)]
+            if b == src and s_ == dst:
+                paths.append(c2)
+            elif s_ in mine and s_ not in vis:
+                stack.append((s_, c2, vis + (s_,)))
+    if not paths:
+        return None
+    # variables read by the tests
+    decls = {}
+    cols = set()
+    for cs in paths:
+        for own, _ in cs:
+            for x in walk(own):
+                if x['k'] == 'DeclRefExpr' and x.get('dk') not in ('enum', 'func') and x.get('d') is not None \
+                        and not x.get('n', '').startswith('table_'):
+                    decls[x['d']] = x
+                if x['k'] == 'MemberExpr' and kids(x):
+                    b_ = strip(kids(x)[0], casts=True)
+                    if b_['k'] == 'ArraySubscriptExpr':
+                        t_ = strip(kids(b_)[0], casts=True)
+                        if t_['k'] == 'DeclRefExpr' and t_.get('n') == table:
+                            cols.add(x.get('n'))
+    # the loop index of the table subscript is not a variable of the test
+    envs = [{'table': table}]
+    what = []
+    if cols:
+        try:
+            rws, _, _ = tables.rows(prog, table)
+        except AnalysisBroken:
+            return None
+        sel = [r for r in rws if r and const(r.get(typecol)) in typevals]
+        if not sel:
+            return None
+        envs = []
+        for r in sel:
+            e = {'table': table}
+            for c in cols:
+                e[('col', c)] = const(r.get(c))
+            envs.append(e)
+        what.append('the %d rows of %s with this type' % (len(sel), table))
+    small = {}
+    stored_here = set()
+    for b in mine:
+        for e_ in fn.blocks[b]['e']:
+            x = fn.nodes.get(e_)
+            if x is None:
+                continue
+            t_ = None
+            if x['k'] in ('BinaryOperator', 'CompoundAssignOperator') and x.get('op', '').endswith('=') and \
+                    x['op'] not in ('==', '!=', '<=', '>='):
+                t_ = strip(kids(x)[0])
+            elif x['k'] == 'UnaryOperator' and x.get('op') in ('++', '--', '&'):
+                t_ = strip(kids(x)[0])
+            if t_ is not None and t_['k'] == 'DeclRefExpr':
+                stored_here.add(t_.get('d'))
+    for d, ref in decls.items():
+        if d in stored_here:
+            continue
+        iv = fa.eval_at(ref, ref)
+        if iv and iv[0] is not None and iv[1] is not None and 0 <= iv[1] - iv[0] <= 63:
+            small[d] = (iv[0], iv[1], ref.get('n'))
+    if len(small) > 2:
+        return None
+    for d, (lo, hi, nm) in small.items():
+        envs = [{**e, ('v', d): x} for e in envs for x in range(lo, hi + 1)]
+        what.append('%s in [%d, %d]' % (nm, lo, hi))
+    if len(envs) > 8192:
+        return None
+    for cs in paths:
+        for e in envs:
+            ok = True
+            for own, truth in cs:
+                v = _ev(own, e)
+                if v is not None and bool(v) != truth:
+                    ok = False
+                    break
+            if ok:
+                return None
+    return 'the tests on every path to the end of the arm fail for %s' % ' and '.join(what or ['all values'])
+
+
+def fallthrough(prog, floor=90):
+    """CASE-FALLTHROUGH: in a switch over the operand type of an opcode-table row in asm/*.cpp, control never runs from the
+    statements of one arm into the statements of the next arm.  (Labels stacked on one statement list share it and are one
+    arm.)  A fall-through means that a source line whose operands do not fit type X is matched against the operand pattern
+    of the unrelated type Y that happens to be written next, and encoded with X's opcode."""
+    from nk.interval import Analyzer, FnIntervals
+    an = Analyzer(prog)
+    facache = {}
+    reported = set()
+    obs = []
+    nsw = 0
+    for fn in sorted(prog.fns.values(), key=lambda f: (f.file, f.line)):
+        if not fn.blocks or not fn.file.startswith(('asm/', 'disasm/')):
+            continue
+        for sw, txt in _switches(fn):
+            cs = _cases(fn, sw)
+            if not cs:
+                continue
+            nsw += 1
+            # arms as distinct statement sets
+            arms = {}
+            for name, (ids, cns) in cs.items():
+                arms.setdefault(frozenset(ids), []).append((name, cns[0]))
+            blocks_of = {ids: _arm_blocks(fn, ids) for ids in arms}
+            bad = 0
+            for ids, names in sorted(arms.items(), key=lambda kv: kv[1][0][1]['l']):
+                if not ids:
+                    continue
+                mine = blocks_of[ids]
+                for b in mine:
+                    for s_ in fn.blocks[b]['s']:
+                        if s_ is None or s_ in mine:
+                            continue
+                        for ids2, names2 in arms.items():
+                            if ids2 is ids or not ids2:
+                                continue
+                            ents = _entries(fn, blocks_of[ids2])
+                            if s_ in ents and names2[0][1]['l'] > names[0][1]['l']:
+                                if fn.key not in facache:
+                                    facache[fn.key] = FnIntervals(an, fn)
+                                why = _edge_refuted(prog, fn, facache[fn.key], mine, b, s_, _table(txt), txt.split('.')[-1],
+                                                    {cn_.get('v') for nm_, cn_ in names})
+                                if why:
+                                    obs.append(Ob('CASE-FALLTHROUGH', fn.file, names[0][1]['l'], fn.q,
+                                                  '%s:%s->%s' % (_table(txt), names[0][0], names2[0][0]), DISCHARGED, '',
+                                                  'the arm has no break before %s, but the end of the arm is unreachable: %s' % (
+                                                      names2[0][0], why)))
+                                    continue
+                                bad += 1
+                                if (fn.key, names[0][0], names2[0][0]) in reported:
+                                    continue
+                                reported.add((fn.key, names[0][0], names2[0][0]))
+                                obs.append(Ob('CASE-FALLTHROUGH', fn.file, names[0][1]['l'], fn.q,
+                                              '%s:%s->%s' % (_table(txt), names[0][0], names2[0][0]), VIOLATED,
+                                              'the arm of %s (line %d) runs into the arm of %s (line %d): operands that do not fit '
+                                              '%s are matched against the pattern of %s and encoded with the opcode of the %s row' % (
+                                                  names[0][0], names[0][1]['l'], names2[0][0], names2[0][1]['l'],
+                                                  names[0][0], names2[0][0], names[0][0])))
+            if not bad:
+                obs.append(Ob('CASE-FALLTHROUGH', fn.file, sw['l'], fn.q, 'switch:%s#%d' % (_table(txt), sw['l'] // 1000),
+                              DISCHARGED, '', 'no arm of the %d operand types runs into the next one' % len(arms), True))
+    if nsw < floor:
+        raise AnalysisBroken('CASE-FALLTHROUGH: only %d operand-type switches' % nsw)
+    return RuleResult('CASE-FALLTHROUGH', obs, floor, {'switches': nsw})
